@@ -192,3 +192,70 @@ Proof.
           repeat split|].
   split; [discriminate|]. repeat split; vm_compute; reflexivity.
 Qed.
+
+(** s74 — header look-alikes.  A byte string that merely BEGINS like a serialized container (tag, 8 length
+    bytes, a registered envelope id) but whose declared length does not fit its data, or whose inner bytes are
+    not an envelope of the kind the id byte names, is a PLAINTEXT: "already protected" is exactly
+    [looks_protected] (the column's handler matches it, or DeserializeEncryptedData + the inner handler do),
+    never the header alone; such a value is wrapped (the result differs from it and is a protected value) and
+    the owner reveals the same bytes through every reveal entry point. *)
+From Acra Require Import Proofs.EnvelopeLookalike.
+
+Theorem C01_header_lookalike_is_plaintext :
+  forall (id : byte) (x : bytes), header_lookalike id x -> looks_protected id x = false.
+Proof. exact header_lookalike_not_protected. Qed.
+Print Assumptions C01_header_lookalike_is_plaintext.
+
+Theorem C01_not_protected_is_header_lookalike_or_plain :
+  forall (id : byte) (x : bytes), looks_protected id x = false -> header_lookalike id x.
+Proof. exact not_protected_header_lookalike. Qed.
+Print Assumptions C01_not_protected_is_header_lookalike_or_plain.
+
+Theorem C01_header_lookalike_roundtrip_asymmetric :
+  forall (C : crypto), Correct C ->
+  forall (ks ks' : keyset) (tape : list bytes) (x sb : bytes) (before after : list bytes),
+  header_lookalike ENVELOPE_ID_ACRASTRUCT x ->
+  x <> [] -> (N.of_nat (length x) < MAXMSG)%N -> good_as_tape tape -> length sb = SEED_LEN ->
+  ks_pub ks = Some (pub_of C sb) ->
+  ks_privs ks' = before ++ priv_of C sb :: after ->
+  (forall v, Forall (fun p => exists e, as_decrypt C v p [] = Err e) before) ->
+  exists v, encrypt_with_handler C ENVELOPE_ID_ACRASTRUCT ks tape x = Ok v /\
+            v <> x /\ looks_protected ENVELOPE_ID_ACRASTRUCT v = true /\
+            decrypt_with_handler C ENVELOPE_ID_ACRASTRUCT ks' v = Ok x /\
+            registry_process C ks' v = Ok x.
+Proof. exact lookalike_roundtrip_as. Qed.
+Print Assumptions C01_header_lookalike_roundtrip_asymmetric.
+
+Theorem C01_header_lookalike_roundtrip_symmetric :
+  forall (C : crypto), Correct C ->
+  forall (ks ks' : keyset) (tape : list bytes) (x key : bytes) (rest before after : list bytes),
+  header_lookalike ENVELOPE_ID_ACRABLOCK x ->
+  x <> [] -> (N.of_nat (length x) < MAXMSG)%N -> good_ab_tape tape -> key <> [] ->
+  ks_syms ks = key :: rest ->
+  ks_syms ks' = before ++ key :: after ->
+  (forall ek, Forall (fun k => bytes_eqb (ab_key_id k []) (ab_key_id key []) = false
+                               \/ cell_decrypt C k [] ek = None) before) ->
+  exists v, encrypt_with_handler C ENVELOPE_ID_ACRABLOCK ks tape x = Ok v /\
+            v <> x /\ looks_protected ENVELOPE_ID_ACRABLOCK v = true /\
+            decrypt_with_handler C ENVELOPE_ID_ACRABLOCK ks' v = Ok x /\
+            registry_process C ks' v = Ok x.
+Proof. exact lookalike_roundtrip_ab. Qed.
+Print Assumptions C01_header_lookalike_roundtrip_symmetric.
+
+(** non-vacuity: '%%%' + declared length 13 + the AcraStruct id + two bytes (14 bytes: the length does not fit
+    an AcraStruct inside) is a look-alike, and the stand-in wraps and reveals it *)
+Definition ex_look : bytes :=
+  [x25; x25; x25; x0d; x00; x00; x00; x00; x00; x00; x00] ++ [ENVELOPE_ID_ACRASTRUCT; x41; x42].
+Definition ex_look_v : bytes := Eval vm_compute in
+  match encrypt_with_handler Stub ENVELOPE_ID_ACRASTRUCT ex_ks_w ex_tape ex_look with Ok v => v | _ => [] end.
+Example C01_header_lookalike_premises_hold :
+  header_lookalike ENVELOPE_ID_ACRASTRUCT ex_look /\ header_lookalike ENVELOPE_ID_ACRABLOCK ex_look /\
+  sc_validate ex_look = Some ENVELOPE_ID_ACRASTRUCT /\
+  encrypt_with_handler Stub ENVELOPE_ID_ACRASTRUCT ex_ks_w ex_tape ex_look = Ok ex_look_v /\
+  bytes_eqb ex_look_v ex_look = false /\
+  decrypt_with_handler Stub ENVELOPE_ID_ACRASTRUCT ex_ks_r ex_look_v = Ok ex_look.
+Proof.
+  split; [apply not_protected_header_lookalike; vm_compute; reflexivity|].
+  split; [apply not_protected_header_lookalike; vm_compute; reflexivity|].
+  repeat split; vm_compute; reflexivity.
+Qed.
